@@ -52,6 +52,9 @@ def reject_cases(rng, tier):
 
 
 def worker(case):
+    if case.get('kind') == 'eol':
+        import eolcheck
+        return eolcheck.eol_worker(case)
     if case.get('kind') != 'rejln':
         return engine.stream_worker(case)
     import os
@@ -69,8 +72,10 @@ def worker(case):
 
 
 def judge(ck, flex, scratch, cases, results, stats):
-    sc = [(c, r) for c, r in zip(cases, results) if c.get('kind') != 'rejln']
+    import eolcheck
+    sc = [(c, r) for c, r in zip(cases, results) if c.get('kind') not in ('rejln', 'eol')]
     engine.judge_stream(ck, flex, scratch, [c for c, _ in sc], [r for _, r in sc], stats)
+    eolcheck.judge_eol(ck, cases, results, stats)
     stats['reject_lineno_events_compared'] = sum(r.get('lines_compared', 0) for c, r in zip(cases, results) if c.get('kind') == 'rejln')
     for c, r in zip(cases, results):
         if c.get('kind') != 'rejln':
@@ -96,7 +101,8 @@ def judge(ck, flex, scratch, cases, results, stats):
 
 
 def build_all(rng, tier):
-    return build_cases(rng, tier) + reject_cases(rng.fork("reject"), tier)
+    import eolcheck
+    return build_cases(rng, tier) + reject_cases(rng.fork("reject"), tier) + eolcheck.eol_cases(rng.fork("eol"), tier)
 
 
 def main(tier):
@@ -105,6 +111,8 @@ def main(tier):
     try:
         return engine.standard_main(
             PROP, tier, "Properties_C09.v", build_all,
+            "the emitted table yy_rule_can_match_eol of generated rule sets judged by the proved eol_ok (C09_eol_table_covers_every_newline; "
+            "no scanner is run: the verdict holds for every input); "
             "REJECT scanners with %option yylineno (rules whose alternatives contain different numbers of newlines; every action prints "
             "the yylineno it sees; compared with rej_tokens_ln, C09_reject_does_not_count_lines); "
             "programs with %option yylineno (and, every 7th, without it) whose rules match newlines through literals, classes, negated "
@@ -112,7 +120,7 @@ def main(tier):
             "every action and compared with the stream machine, for which C09_lineno_conservation is proved; "
             "non-trivial = DFA >= 3 states and >= 2 rules matched",
             ["per-buffer line numbers of reentrant scanners across buffer switches are the subject of C11"],
-            worker=worker, post=lambda ck, flex, scratch, cases, results, stats: {k: stats.get(k, 0) for k in ['reject_lineno_events_compared']})
+            worker=worker, post=lambda ck, flex, scratch, cases, results, stats: {k: stats.get(k, 0) for k in ['reject_lineno_events_compared', 'eol_tables_checked']})
     finally:
         engine.judge = orig
 
